@@ -58,6 +58,8 @@ class Walk:
         fifo = []          # queued commands in send order: {"ev": toks, "handle": h, "step": i} or {"shutdown": True}
         parked = {}        # client -> toks of the parked call
         for st in self.case.steps:
+            if st.kind in ("ack", "pure"):
+                continue
             if st.out.startswith("disabled") or st.out.startswith("hang") or not st.snap_text:
                 yield st, pre, pre, fifo, None
                 continue
@@ -478,7 +480,52 @@ def mon_C11(case):
                     break
 
 
+def ack_fields(out):
+    return dict(x.split("=", 1) for x in out.split()[2:] if "=" in x)
+
+
+def mon_C12_ack(case):
+    for st in case.steps:
+        if st.kind != "ack":
+            continue
+        head, _, acts = st.ev[2:].partition("|")
+        final = head.split()[0]
+        acts = acts.split()
+        f = ack_fields(st.out)
+        pollers = f.get("results", "").split("|")
+        for p, res in enumerate(pollers):
+            rs = [r for r in res.split(",") if r]
+            for r in rs:
+                if r == "ready:pending":
+                    yield finding("C12", st, f"poll of task {p} returned Ready(Pending) under schedule {' '.join(acts)}", "C12/ready-pending")
+                elif r.startswith("ready:") and r != "ready:" + final:
+                    yield finding("C12", st, f"poll returned {r} but done() was given {final}", "C12/wrong-status")
+            seen_ready = False
+            for r in rs:
+                if r.startswith("ready:"):
+                    seen_ready = True
+                elif seen_ready:
+                    yield finding("C12", st, f"task {p} saw Pending after Ready: {rs}", "C12/not-stable")
+        if f.get("cpc") == "finished":
+            wakes = [w for w in f.get("wakes", "").split(",") if w]
+            regs_before = []
+            for a in acts:
+                if a == "w":
+                    break
+                if a.startswith("lr:"):
+                    regs_before.append(a.split(":")[2])
+            want = regs_before[-1:]
+            if wakes != want:
+                yield finding("C12", st, f"done() woke {wakes}, the last waker registered before the wake section was {want}", "C12/wrong-or-missing-wake")
+            if f.get("flag") != "1" or f.get("status") != final:
+                yield finding("C12", st, "done() finished without publishing flag and status", "C12/not-published")
+        # a poll that resolved implies the status cell already holds the real status
+        if any("ready:" in r for r in pollers) and f.get("status") != final:
+            yield finding("C12", st, "a poll resolved before the status was stored", "C12/resolved-before-status")
+
+
 def mon_C12(case):
+    yield from mon_C12_ack(case)
     for st, pre, post, fifo, ex in Walk(case):
         if post is pre or st.kind != "poll":
             continue
@@ -567,6 +614,9 @@ def mon_C15(case):
 
 
 def mon_C16(case):
+    for st in case.steps:
+        if st.kind == "pure" and st.toks and st.toks[0] == "ratio" and "mismatch" in st.out:
+            yield finding("C16", st, f"hit ratio after {st.toks[1]} hits and {st.toks[2]} misses: {st.out}", "C16/hit-ratio")
     lookups = 0
     refused = 0
     cleared = False
@@ -686,8 +736,51 @@ def mon_C03(case):
                     yield finding("C03", st, f"key {k} left the cache through {st.kind} without delete, expiry or pressure", "C03/spurious-loss")
 
 
+def nibbles(hexrow):
+    out = []
+    for i in range(0, len(hexrow), 2):
+        b = int(hexrow[i:i + 2], 16)
+        out += [b & 15, b >> 4]
+    return out
+
+
+def mon_C14_pure(case):
+    """The property itself, recomputed independently, on the exhaustive byte tables."""
+    for st in case.steps:
+        if st.kind != "pure" or not st.toks:
+            continue
+        t = st.toks
+        o = st.out.split()
+        if t[0] == "row.inc":
+            before = nibbles(t[1]); pos = int(t[2])
+            if pos >= len(before):
+                if o[0] != "panic":
+                    yield finding("C14", st, "increment beyond the row did not fail", "C14/out-of-bounds-accepted")
+                continue
+            if o[0] != "row":
+                yield finding("C14", st, f"increment at a valid position failed: {st.out}", "C14/increment-failed")
+                continue
+            after = nibbles(o[1])
+            want = list(before); want[pos] = min(before[pos] + 1, 15)
+            if after != want:
+                which = "the incremented counter" if after[pos] != want[pos] else "another counter"
+                yield finding("C14", st, f"increment of counter {pos} in {t[1]} gave {o[1]}: {which} is wrong", "C14/increment-wrong" if after[pos] != want[pos] else "C14/increment-disturbs-neighbour")
+        elif t[0] == "row.half" and o[0] == "row":
+            if nibbles(o[1]) != [c // 2 for c in nibbles(t[1])]:
+                yield finding("C14", st, f"ageing of {t[1]} gave {o[1]}", "C14/halving-wrong")
+        elif t[0] == "row.get" and o[0] == "val":
+            before = nibbles(t[1]); pos = int(t[2])
+            if pos < len(before) and int(o[1]) != before[pos]:
+                yield finding("C14", st, f"counter {pos} of {t[1]} read as {o[1]}", "C14/read-wrong")
+        elif t[0] == "np2" and o[0] == "val":
+            c, v = int(t[1]), int(o[1])
+            if v < 2 or v & (v - 1) or v < c or (c >= 2 and v >= 2 * c):
+                yield finding("C14", st, f"next_power_2({c}) = {v}", "C14/next-power-of-two")
+
+
 def mon_C14(case):
     """Within the whole-cache runs: an estimate never exceeds 16, counters never wrap (rows only grow between resets)."""
+    yield from mon_C14_pure(case)
     for st, pre, post, fifo, ex in Walk(case):
         if post is pre or st.kind != "consumer":
             continue
@@ -702,8 +795,31 @@ def mon_C14(case):
                         break
 
 
-MONITORS = {
+_SEQ = {
     "C01": mon_C01, "C02": mon_C02, "C03": mon_C03, "C04": mon_C04, "C05": mon_C05, "C06": mon_C06,
     "C07": mon_C07, "C08": mon_C08, "C09": mon_C09, "C10": mon_C10, "C11": mon_C11, "C12": mon_C12,
     "C13": mon_C13, "C14": mon_C14, "C15": mon_C15, "C16": mon_C16, "C17": mon_C17, "C18": mon_C18,
 }
+
+
+def _dispatch(pid):
+    def run(case):
+        if case.cfg_line:
+            yield from _SEQ[pid](case)
+        elif pid == "C12":
+            yield from mon_C12_ack(case)
+        elif pid == "C14":
+            yield from mon_C14_pure(case)
+        elif pid == "C16":
+            for st in case.steps:
+                if st.kind == "pure" and st.toks and st.toks[0] == "ratio" and "mismatch" in st.out:
+                    yield finding("C16", st, f"hit ratio after {st.toks[1]} hits and {st.toks[2]} misses: {st.out}", "C16/hit-ratio")
+        if case.hang and pid in ("C13", "C15", "C18"):
+            if pid != "C18" or not case.cfg_line:
+                st = case.steps[-1] if case.steps else None
+                what = "; ".join(n for n in case.notes if n.startswith("# hang") or n.startswith("# engine"))
+                yield {"property": pid, "step": st.index if st else 0, "what": f"a call or background step did not return: {what}", "signature": f"{pid}/hang"}
+    return run
+
+
+MONITORS = {pid: _dispatch(pid) for pid in _SEQ}
